@@ -515,6 +515,80 @@ func checkC01(args []string) {
 			}
 		}
 	}
+	// colour-cache histories: pictures of 17..40 colours (a palette of 8-bit indices, so many colours share a slot of
+	// a small cache) built from the pattern  "S A T ... S A | B | A T | B":  a copy that ends in colour A, a literal B,
+	// a copy that starts with A, then B again - for random pairs (A, B); whether B may be coded as a cache reference
+	// the second time depends on every insertion in between being mirrored by the encoder
+	{
+		n := run.Pick(150, 1500)
+		for i := 0; i < n; i++ {
+			nc := 17 + rng.Intn(24)
+			grey := rng.Intn(2) == 0
+			var seq []uint8
+			snip := func(l int) []uint8 {
+				o := make([]uint8, l)
+				for k := range o {
+					o[k] = uint8(rng.Intn(nc))
+				}
+				return o
+			}
+			for b, nb := 0, 2+rng.Intn(6); b < nb; b++ {
+				a, bb := uint8(rng.Intn(nc)), uint8(rng.Intn(nc))
+				sn, tn := snip(3+rng.Intn(4)), snip(3+rng.Intn(4))
+				seq = append(seq, sn...)
+				seq = append(seq, a)
+				seq = append(seq, tn...)
+				seq = append(seq, snip(rng.Intn(4))...)
+				seq = append(seq, sn...)
+				seq = append(seq, a, bb, a)
+				seq = append(seq, tn...)
+				seq = append(seq, bb)
+				seq = append(seq, snip(rng.Intn(3))...)
+			}
+			w := []int{len(seq), (len(seq) + 1) / 2, (len(seq) + 3) / 4, 11, 16}[rng.Intn(5)]
+			h := (len(seq) + w - 1) / w
+			img := image.NewNRGBA(image.Rect(0, 0, w, h))
+			colour := make([][3]uint8, nc)
+			for k := range colour {
+				if grey {
+					v := uint8(k * 255 / (nc - 1))
+					colour[k] = [3]uint8{v, v, v}
+				} else {
+					colour[k] = [3]uint8{uint8(rng.Intn(256)), uint8(rng.Intn(256)), uint8(rng.Intn(256))}
+				}
+			}
+			for k := 0; k < w*h; k++ {
+				c := colour[0]
+				if k < len(seq) {
+					c = colour[seq[k]]
+				}
+				img.Pix[4*k], img.Pix[4*k+1], img.Pix[4*k+2], img.Pix[4*k+3] = c[0], c[1], c[2], 255
+			}
+			o := webp.EncoderOptions{Lossless: true, Quality: []float32{30, 60, 75, 26, 50, 90}[rng.Intn(6)], Method: []int{2, 4, 3, 6, 0}[rng.Intn(5)]}
+			name := fmt.Sprintf("%dx%d colour-cache history of %d pixels over %d colours (grey %v), lossless q%v m%d #%d", w, h, len(seq), nc, grey, o.Quality, o.Method, i)
+			out, err, pan := safeEncode(img, &o)
+			run.Eval(name)
+			if pan != nil || err != nil {
+				run.Violate("encode-fails|cache-history", fmt.Sprintf("%s: err=%v panic=%v", name, err, pan), name)
+				continue
+			}
+			dec, derr := guardedDecode(out)
+			if derr != nil {
+				run.Violate("decode-fails|cache-history", name+": "+derr.Error(), name)
+				continue
+			}
+			if got, ok := dec.(*image.NRGBA); !ok || got.Bounds() != img.Bounds() || !bytes.Equal(got.Pix, img.Pix) {
+				run.Violate("pixels|cache-history", name+": the round trip does not reproduce the picture", name)
+			}
+			if w*h <= 1100 && i%3 == 0 {
+				if payload := findChunk(out, "VP8L"); payload != nil {
+					id := fmt.Sprintf("cc%d", i)
+					lines = append(lines, vp8lLine{ID: id, Bytes: vx.Ints(payload), W: w, H: h, Pix: argbList(img), TZero: 1})
+					info[id] = name + "||cache-history"
+				}
+			}
+		}
+	}
 	// pictures larger than the LZ77 window (2^20 - 120 pixels at Quality > 75, width << 8 / << 6 / << 4 below) whose
 	// tail repeats runs that lie exactly at, just inside and just outside the window limit of each quality class
 	{
